@@ -630,13 +630,13 @@ func c14NonTrivial(cs c14Case) bool {
 func TestVerifC14(t *testing.T) {
 	kit.Run(t, "C14",
 		kit.Class[c14Case]{
-			Name: "cells", Quick: 3000, Thorough: 300000,
+			Name: "cells", Quick: 12000, Thorough: 300000,
 			Gen: func(r *kit.Rand, i int) c14Case {
 				return c14Case{C: bsgen.Gen(r, bsgen.DefaultOpts)}
 			},
 			Check:         c14Check,
 			NonTrivial:    c14NonTrivial,
-			MinNonTrivial: 1000,
+			MinNonTrivial: 4000,
 			Rule:          "structured benchstat inputs (1-4 files incl. duplicate and label=path arguments, 1-3 config blocks with set/change/delete, 2-6 benchmarks with sub-name keys and -N, 1-3 units incl. assume=exact metadata, unequal and missing samples, occasional zero/negative metrics) x flag combinations of -table/-row/-col/-ignore/-filter/-alpha/-confidence (orders @alpha and fixed lists incl.); non-trivial = >= 2 files and at least one non-default projection, ignore or filter",
 		},
 	)
